@@ -28,6 +28,17 @@ import time
 import traceback
 
 
+def _die_with_parent(sig):
+    """Linux: deliver `sig` to this process when its parent exits (a killed check must not leave workers behind)."""
+    try:
+        import ctypes
+        ctypes.CDLL(None, use_errno=True).prctl(1, int(sig), 0, 0, 0)      # PR_SET_PDEATHSIG
+        if os.getppid() == 1:
+            os._exit(0)
+    except Exception:
+        pass
+
+
 def _innermost_lian_frame(tb):
     name = None
     for fs in traceback.extract_tb(tb):
@@ -68,8 +79,10 @@ def _run_in_grandchild(argv, cwd=None):
 
 def run_job(job):
     import fcntl
+    import signal
     from . import common, lianrun
     from .monitors import artefacts
+    _die_with_parent(signal.SIGKILL)
     t0 = time.time()
     ws_arg = job["workspace"]
     ws = lianrun.ws_dir(ws_arg)
@@ -201,7 +214,9 @@ def run_job(job):
 
 
 def main(argv):
+    import signal
     from . import common, forkpool, lianrun
+    _die_with_parent(signal.SIGTERM)
     jobs_path, out_path = argv[1], argv[2]
     workers = int(argv[3]) if len(argv) > 3 else 3
     with open(jobs_path) as f:
